@@ -153,10 +153,28 @@ def _run_case(case, ctx):
                 rank = "same" if spec == "same" else float(gen.choice(rs, [0.3, 0.6]))
                 exp = [min(r, s) for r, s in zip(validate_tucker_rank(X.shape, rank), X.shape)]
             modes = list(range(order))
-            out = D.tucker(X, rank, n_iter_max=n_iter, init=init, tol=tolv, svd=svd, random_state=seed)
+            fixed = None
+            if spec in ("int", "list") and not cplx and order >= 3 and rs.rand() < 0.25:
+                # some factors supplied and kept fixed, listed in any order: every returned factor sits at its own mode
+                init = "user"
+                user_fs = [gen.orth(rs, s_, r_, dt) for s_, r_ in zip(X.shape, exp)]
+                user_core = gen.arr(rs, exp, dt)
+                kf = int(rs.randint(2, order))
+                fixed = rs.permutation(order)[:kf].tolist()
+                out = D.tucker(X, rank, n_iter_max=n_iter, init=(user_core, [f.copy() for f in user_fs]), fixed_factors=list(fixed), tol=tolv, svd=svd, random_state=seed)
+            else:
+                out = D.tucker(X, rank, n_iter_max=n_iter, init=init, tol=tolv, svd=svd, random_state=seed)
             core, fs = out
             rep_rank = tuple(out.rank)
+            if fixed is not None:
+                ctx.count("clause/fixed-factor-positions")
+                for m_ in fixed:
+                    if np.shape(fs[m_]) != np.shape(user_fs[m_]) or not np.array_equal(np.asarray(fs[m_]), user_fs[m_]):
+                        viol(g, "fixed-factor-position", "unsorted" if fixed != sorted(fixed) else "sorted", "fixed_factors=%s: the factor returned for mode %d is not the supplied one (shapes %s)" % (
+                            fixed, m_, [np.shape(f) for f in fs]), {"shape": list(X.shape), "rank_spec": rank, "fixed": fixed})
+                        return
         else:
+            fixed = None
             k = int(rs.randint(1, order + 1))
             modes = sorted(rs.choice(order, size=k, replace=False).tolist())
             spec = gen.choice(rs, ["list", "list", "list", "none", "int"])
@@ -196,6 +214,8 @@ def _run_case(case, ctx):
             if dev > otol:
                 viol(g, "orthonormal", svd, "mode-%d factor deviates from orthonormal by %.3g (tol %.3g)" % (m, dev, otol), desc)
                 return
+        if g == "tucker" and fixed is not None and n_iter == 0:
+            return    # no sweep: the supplied core is handed back as it is (C14's zero-budget clause), it need not be a projection
         ctx.count("clause/core-projection")
         want, wabs, nt = ref.tucker_dense(X, [np.conj(ref.hp(f)).T for f in fs], modes)
         ok, worst = tol.formula_close(core, want, wabs, eps, nt)
